@@ -1,0 +1,19 @@
+//go:build verif
+
+// Round 5, integration: the repeatable string flag (--admin-user, --nsqd-tcp-address, --consumer-opt ...).
+// Comment-only file, checked by /verif/cmd/nsqvc.
+
+package app
+
+// Set: every occurrence of the flag adds exactly ONE element, the argument as given (no splitting, trimming or dropping): an admin identity
+// or an address that contains a comma stays one value (C17: the configured admin list is what the operator wrote).
+//@ func (a *StringArray) Set(s string) error
+//@   props C17 C20 C19
+//@   requires a != nil
+//@   ensures[one-element-as-given] result == nil && len(*a) == old(len(*a)) + 1 && (*a)[old(len(*a))] == s
+//@   ensures[earlier-values-kept] forall k int :: {(*a)[k]} 0 <= k && k < old(len(*a)) ==> (*a)[k] == old((*a)[k])
+//@ func (a *StringArray) Get() interface{}
+//@   props C17 C20 C19
+//@   requires a != nil
+//@   ensures[the-slice] dyntype(result) == typetag("[]string") && unbox(result, "[]string") == *a
+//@   modifies
